@@ -1,7 +1,7 @@
 (* C15 - inspecting commands never write; rewriting commands touch only their targets. Statements only. *)
 From Coq Require Import String.
 From Verif Require Import Base.Str Base.Outcome Model.RuleId Model.Update Model.Renumber Model.Cli Model.Assembler Model.CmdLine.
-From Verif Require Import Proofs.CliProofs Proofs.AssemblerProofs.
+From Verif Require Import Proofs.CliProofs Proofs.AssemblerProofs Proofs.CliTargetProofs.
 From Verif Require Tie.Pin_lits_cmd_regex_update_performUpdate Tie.Pin_lits_cmd_regex_update_processRule Tie.Pin_lits_cmd_regex_format_processAll Tie.Pin_lits_cmd_regex_format_processFile Tie.Pin_lits_cmd_regex_format_createFormatCommand Tie.Pin_lits_util_renumber_tests_TestRenumberer_RenumberTests Tie.Pin_lits_util_renumber_tests_TestRenumberer_processFile Tie.Pin_lits_cmd_util_renumber_tests_parseFilePath Tie.Pin_lits_chore_update_copyright_UpdateCopyright Tie.Pin_lits_chore_update_copyright_processFile Tie.Pin_RuleIdFileNameRegex_src Tie.Pin_RuleIdTestFileNameRegex_src Tie.Pin_lits_context_context_NewWithConfiguration.
 Open Scope N_scope.
 
@@ -52,3 +52,22 @@ Theorem C15_format_argument_refuted :
 Proof. exact format_target_not_ra. Qed.
 Print Assumptions C15_format_argument_refuted.
 
+
+(* whatever its argument, `format ARG` resolves to - and so can only write - a file below regex-assembly
+   (not necessarily a .ra file: the refutation above) *)
+Theorem C15_format_argument_resolves_below_regex_assembly :
+  forall bits arg, under d_assembly (format_target bits arg) = true.
+Proof. exact format_target_below_assembly. Qed.
+Print Assumptions C15_format_argument_resolves_below_regex_assembly.
+
+Theorem C15_format_one_touches_only_below_regex_assembly :
+  forall fmt bits t arg t' st q, format_one fmt bits t arg = (t', st) -> under d_assembly q = false -> t_get t' q = t_get t q.
+Proof. exact format_one_touches_only_below_assembly. Qed.
+Print Assumptions C15_format_one_touches_only_below_regex_assembly.
+
+(* `update ARG`, successful or not, touches at most the ONE rules file the glob of the rule's prefix selects *)
+Theorem C15_update_one_touches_only_the_rules_file_of_the_rule :
+  forall gen bits t arg t' st q, update_one gen bits t arg = (t', st) ->
+  (forall r, parse_rule_id bits arg = Some r -> glob_rules t (r_id r) <> [q]) -> t_get t' q = t_get t q.
+Proof. exact update_one_touches_only_the_rules_file_of_the_rule. Qed.
+Print Assumptions C15_update_one_touches_only_the_rules_file_of_the_rule.
